@@ -525,6 +525,103 @@ def marker_bounded(ctx):
     ctx.ob(RULE, "misnested-a", bad is None and k >= 2, bad or "error, adoption agency, entry removed if still listed, element removed from the stack", "html5ever tree_builder handle_misnested_a_tags")
 
 
+def small_helpers(ctx):
+    """the short helpers the rows lean on: 'close a p element', 'close a p element in button scope', expect-to-close, pop until the
+    current node is in a set, foster-parent through the in-body rules, character tokens in table context, the root element"""
+    def paths(fn):
+        key, pcs = nfq.cells(ctx, TB, "TreeBuilder<Handle,Sink>::" + fn)
+        return [pc for pc in nfq.feasible(pcs) if "panic!" not in [a for a, _ in pc["actions"]]]
+
+    def seq(pc, keep):
+        return [(a, args) for a, args in _acts(pc) if a in keep]
+    facts = []
+    # expect_to_close
+    bad = None
+    for pc in paths("expect_to_close"):
+        one = [v for g, v in pc["guards"].items() if re.match(r"self\.pop_until_named\(p1\) matches 1|\(self\.pop_until_named\(p1\) == 1\)", g)]
+        err = any(a in ("self.sink.parse_error", "self.unexpected") for a, _ in _acts(pc))
+        if not one or one[0] == err or seq(pc, ("self.pop_until_named",)) != [("self.pop_until_named", ("p1",))]:
+            bad = "expect_to_close: popped-exactly-one = %s, error reported = %s" % (one[:1], err)
+    facts.append(("expect-to-close", bad, "pop until the name; error unless exactly one element was popped"))
+    # close_p_element
+    bad = None
+    for pc in paths("close_p_element"):
+        sq = seq(pc, ("self.generate_implied_end_tags", "self.generate_implied_end_except", "self.expect_to_close", "self.pop_until_named"))
+        if len(sq) != 2 or sq[0][0] not in ("self.generate_implied_end_tags", "self.generate_implied_end_except") or sq[1] != ("self.expect_to_close", ("atom:p",)) or sq[0][1] in (("cursory_implied_end",), ("thorough_implied_end",)):
+            bad = "close a p element does %s; the standard: generate implied end tags except for p, then pop until a p has been popped (error if it was not the current node)" % sq
+    facts.append(("close-a-p-element", bad, "implied end tags except p, then expect_to_close(p)"))
+    bad = None
+    for pc in paths("close_p_element_in_button_scope"):
+        sc = [v for g, v in pc["guards"].items() if g.startswith("self.in_scope_named(")]
+        lab = [g for g in pc["guards"] if g.startswith("self.in_scope_named(")]
+        closes = any(a == "self.close_p_element" for a, _ in _acts(pc))
+        if not sc or sc[0] != closes or not lab[0].startswith("self.in_scope_named(button_scope,atom:p)"):
+            bad = "p in button scope = %s (%s) but close_p_element called = %s" % (sc[:1], lab[:1], closes)
+    facts.append(("close-p-in-button-scope", bad, "close_p_element iff a p element is in button scope"))
+    # pop_until_current
+    bad = None
+    seen = set()
+    for pc in paths("pop_until_current"):
+        inn = [v for g, v in pc["guards"].items() if g.startswith("self.current_node_in(p1)")]
+        pops = [a for a, _ in _acts(pc) if a in ("self.pop", "self.open_elems.pop")]
+        if not inn:
+            bad = "the current node is not tested"
+        elif inn[0]:
+            seen.add("stop")
+            if pops or _loop_exit(pc) != "break":
+                bad = "current node in the set: pops %s, loop %s" % (pops, _loop_exit(pc))
+        else:
+            seen.add("pop")
+            if len(pops) != 1 or _loop_exit(pc) != "end":
+                bad = "current node not in the set: pops %s, loop %s" % (pops, _loop_exit(pc))
+    facts.append(("pop-until-current", bad or (None if seen == {"stop", "pop"} else "paths missing"), "pop while the current node is not in the set"))
+    # foster_parent_in_body
+    bad = None
+    for pc in paths("foster_parent_in_body"):
+        sq = seq(pc, ("set self.foster_parenting", "self.step", "self.foster_parenting.set"))
+        if sq != [("set self.foster_parenting", ("true",)), ("self.step", ("InBody", "p1")), ("set self.foster_parenting", ("false",))] or str(pc["ret"]) != "self.step(InBody,p1)":
+            bad = "foster_parent_in_body does %s -> %s; the standard: foster parenting on, the in-body rules for this token, foster parenting off" % (sq, str(pc["ret"])[:40])
+    facts.append(("foster-parent-in-body", bad, "flag on, step(InBody, token), flag off; the step's answer returned"))
+    # process_chars_in_table
+    bad = None
+    seen = set()
+    for pc in paths("process_chars_in_table"):
+        inn = [v for g, v in pc["guards"].items() if g.startswith("self.current_node_in(table_outer)")]
+        names = [a for a, _ in _acts(pc)]
+        if not inn:
+            bad = "the current node is not tested against table / tbody / tfoot / thead / tr"
+        elif inn[0]:
+            seen.add("table")
+            if ("set self.orig_mode", ("Some(self.mode.get())",)) not in _acts(pc) or str(pc["ret"]) != "Reprocess(InTableText,p1)" or "self.foster_parent_in_body" in names:
+                bad = "character token in table context: %s -> %s; the standard saves the insertion mode and switches to 'in table text', reprocessing the token" % (names, str(pc["ret"])[:40])
+        else:
+            seen.add("elsewhere")
+            if "self.foster_parent_in_body" not in names or not any(a in ("self.sink.parse_error", "self.unexpected") for a in names) or str(pc["ret"]) != "self.foster_parent_in_body(p1)":
+                bad = "character token outside table context: %s -> %s; the standard: parse error, foster-parent through the in-body rules" % (names, str(pc["ret"])[:40])
+    facts.append(("chars-in-table", bad or (None if seen == {"table", "elsewhere"} else "paths missing"), "table context -> in table text (mode saved); else error + foster parenting"))
+    # create_root
+    bad = None
+    for pc in paths("create_root"):
+        a = _acts(pc)
+        ce = [args for x, args in a if x in ("call create_element", "call create_element_with_flags")]
+        if len(ce) != 1 or ce[0][:3] != ("self.sink", "new(None,atom:http://www.w3.org/1999/xhtml,atom:html)", "p1"):
+            bad = "the root element is created as %s" % (ce[:1],)
+            continue
+        el = "%s(%s)" % ("create_element" if len(ce[0]) == 3 else "create_element_with_flags", ",".join(ce[0]))
+        if ("self.push", (el,)) not in a or ("self.sink.append", ("self.doc_handle", "AppendNode(%s)" % el)) not in a:
+            bad = "the root element is not both pushed and appended to the document"
+    facts.append(("create-root", bad, "html element (HTML namespace, the token's attributes) pushed and appended to the document"))
+    # pop_until_named
+    bad = None
+    for pc in paths("pop_until_named"):
+        pu = [args for x, args in _acts(pc) if x == "self.pop_until"]
+        if len(pu) != 1 or not re.search(r"a1\.ns == atom:http://www\.w3\.org/1999/xhtml\)", pu[0][0]) or not re.search(r"a1\.local == p1\)|p1 == \*?a1\.local", pu[0][0]):
+            bad = "pop_until_named pops until %s, not until an HTML element with the given local name" % (pu[:1],)
+    facts.append(("pop-until-named", bad, "pop until an element in the HTML namespace with that local name has been popped"))
+    for name, bad, okmsg in facts:
+        ctx.ob(RULE, "helper/" + name, bad is None, bad or okmsg, "html5ever tree_builder " + name)
+
+
 def dispatcher(ctx):
     """the tree construction dispatcher (is_foreign): for every kind of token x every kind of adjusted current node the decision
     'rules for foreign content' vs 'current insertion mode' is the standard's: HTML content for an empty stack, an HTML element,
@@ -832,7 +929,7 @@ def adoption_inner_loop(ctx):
            "html5ever tree_builder adoption_agency")
 
 
-FACTS = (dispatcher, marker_or_open, ignore_lf_one_token, insert_an_element, adoption_inner_loop, marker_bounded, in_scope, implied_end_tags, pop_until, appropriate_place, any_other_end_tag, clear_to_marker, close_the_cell, reconstruct, adoption_bailouts)
+FACTS = (small_helpers, dispatcher, marker_or_open, ignore_lf_one_token, insert_an_element, adoption_inner_loop, marker_bounded, in_scope, implied_end_tags, pop_until, appropriate_place, any_other_end_tag, clear_to_marker, close_the_cell, reconstruct, adoption_bailouts)
 
 
 def run(ctx):
